@@ -23,8 +23,10 @@
 (*                                                                                     *)
 (* Not modelled: offset-addressed reads, clean markers, the reclamation counters,        *)
 (* threads, crashes, real deletion of files.  The only I/O failure is `flush` failing at  *)
-(* the end of a batch (the fault seam the harness can drive), which is what creates      *)
-(* rolled-back ("dead") space inside sealed blocks.                                     *)
+(* the end of a batch (the fault seam the harness can drive).  Since e6f06c9 a failed     *)
+(* batch no longer leaves rolled-back ("dead") space inside a published block, so in this  *)
+(* sequential model used = Bytes(es) for every published block; the dead-space branches    *)
+(* of the readers are transcribed all the same (a crash can still produce such space).     *)
 (***************************************************************************************)
 EXTENDS WalrusAPI
 
@@ -219,24 +221,27 @@ DBatch(t, sizes) ==
           /\ Refine(BatchOk(t, Pairs2(es)), "C04: batch not allowed")
           /\ Log(op, "batch_" \o (IF s1.rot = 0 THEN s0.lab ELSE IF s1.rot = 1 THEN s1.lab ELSE "rotate_many"))
 
-(* A batch whose final flush fails (writer.rs: headers of the whole plan zeroed, rollback):   *)
-(* blocks sealed while planning stay published with `used` covering the zeroed entries;       *)
-(* the writer restarts at offset 0 of the last allocated block, or keeps its offset when no     *)
-(* block was allocated. Driven in the harness by fault site `flush`, occurrence rot+1.          *)
+(* A batch whose final flush fails (writer.rs: the headers of the whole plan are zeroed, then    *)
+(* BatchRevertInfo::rollback): the blocks sealed while planning were kept private; only the      *)
+(* first of them is published, with the `used` it had before the batch (if that is > 0); the     *)
+(* writer restarts at offset 0 of the last allocated block, or keeps block and offset when no      *)
+(* block was allocated. The blocks allocated in between stay allocated and empty. Driven in the   *)
+(* harness by fault site `flush`, occurrence rot+1 (one flush per seal while planning).            *)
 DBatchFail(t, sizes) ==
-  LET s0 == WithWriter(t)
-      es == NewEntries(t, sizes)
-      s1 == WriteAll(s0, es)
-      old(b) == [b EXCEPT !.es = SelectSeq(@, LAMBDA e : e[3] <= Len(log[t]))]
-      w1 == IF s1.rot = 0 THEN s0.w ELSE [s1.w EXCEPT !.es = <<>>, !.used = 0]
-      ch1 == [k \in 1 .. Len(s1.ch) |-> old(s1.ch[k])]
+  LET s0  == WithWriter(t)
+      s1  == WriteAll(s0, NewEntries(t, sizes))     \* the plan: rotations and allocations
+      pub == s1.rot > 0 /\ s0.w.used > 0
+      ch1 == IF pub THEN Append(s0.ch, s0.w) ELSE s0.ch
+      r1  == IF pub /\ s0.r.tb = s0.w.id
+             THEN [s0.r EXCEPT !.ci = Len(ch1) - 1, !.co = Min(s0.r.to, s0.w.used)] ELSE s0.r
+      w1  == IF s1.rot = 0 THEN s0.w ELSE [s1.w EXCEPT !.es = <<>>, !.used = 0]
       ids == [j \in 1 .. Len(sizes) |-> <<900 + 10 * nops + j, sizes[j]>>]
   IN /\ ~BatchInvalid(sizes) /\ sizes # <<>>
-     /\ Install(t, [s1 EXCEPT !.w = w1, !.ch = ch1])
+     /\ Install(t, [w |-> w1, al |-> s1.al, ch |-> ch1, r |-> r1])
      /\ UNCHANGED <<ix, cnt>>
      /\ Refine(AppendFail(t) /\ clean'[t] = FALSE, "C04: failed batch not allowed")
      /\ Log([op |-> "batch", t |-> t, es |-> ids, bad |-> TRUE, flush_nth |-> s1.rot + 1],
-            IF s1.rot = 0 THEN "batchfail_inplace" ELSE "batchfail_rotated")
+            IF s1.rot = 0 THEN "batchfail_inplace" ELSE IF pub THEN "batchfail_rotated" ELSE "batchfail_rotated_unpublished")
 
 -----------------------------------------------------------------------------------------
 (* walrus_read.rs: hydration of the reader position from the index (once per process and    *)
@@ -370,7 +375,7 @@ BatchReadOutcome(t, b, ck) ==
       w  == wr[t]
       pl == PlanSealed(ch, b, r0.ci, r0.co, 0, <<>>, 0)
       ts == IF r0.tb = w.id THEN r0.to ELSE 0
-      planTail == pl.idx >= Len(ch) /\ w.id # 0 /\ ts < w.used
+      planTail == pl.idx >= Len(ch) /\ w.id # 0 /\ IdxOfId(ch, w.id) = 0 /\ ts < w.used
       plan == IF planTail THEN Append(pl.plan, [k |-> 0 - 1, s |-> ts, e |-> w.used, tail |-> TRUE]) ELSE pl.plan
       ps0 == [out |-> <<>>, tot |-> 0, fi |-> 0, fo |-> 0, ftb |-> 0, fto |-> 0, saw |-> FALSE, why |-> "none", bad |-> FALSE]
       ps == ParsePlan(ch, w, plan, 1, ps0, b)
@@ -559,12 +564,6 @@ IdsStable ==
   LET rec == Recovered IN
   \A x \in DiskSet : \E k \in 1 .. Len(rec.ch[x.t]) :
          rec.ch[x.t][k].f = x.b.f /\ rec.ch[x.t][k].u = x.b.u /\ rec.ch[x.t][k].id = x.b.id
-
-(* No published block consists of rolled-back space only. FALSE = the trigger of the finding   *)
-(* "a failed batch that sealed a block holding nothing but its own entries leaves a published  *)
-(* block the recovery scan cannot see: sealed read positions (chain indexes) shift after a     *)
-(* restart" (found by this model, confirmed on the engine). Avoidance guard as above.          *)
-NoDeadOnlyBlock == \A t \in Topics : \A k \in 1 .. Len(chain[t]) : chain[t][k].es # <<>>
 
 TypeOKD ==
   /\ \A t \in Topics : rd[t].ci \in 0 .. Len(chain[t]) /\ cnt[t] \in Nat
